@@ -12,7 +12,7 @@ import random
 
 from harness import core, sysrun
 
-MODES = ("plain", "cancel", "kill", "timeout", "sbatchfail", "squeuefail", "write", "hooks", "cyclic")
+MODES = ("plain", "cancel", "kill", "timeout", "sbatchfail", "squeuefail", "write", "hooks", "cyclic", "local", "racing_try", "appendtimeout", "suspend")
 WRITE_SITES = ["write:job_status.json", "write:cluster_config.json", "write:config_version", "write:job_status_version",
                "write:batch_config", "write:marker_touch", "write:marker_remove", "append:processed_results.csv"]
 
@@ -25,7 +25,7 @@ def make_case(seed, mode):
         hooks = {k: rng.random() < 0.7 for k in ("setup", "teardown", "node_setup", "node_teardown")}
     sc = sysrun.gen_scenario(rng, hooks=hooks, cyclic=(mode == "cyclic"), force=force)
     at = rng.randint(5, 140)
-    plan = {"strategy": rng.choice(sysrun.STRATEGIES)}
+    plan = {"strategy": rng.choice(sysrun.STRATEGIES + ["gap_hunter"])}
     if mode == "cancel":
         plan["actions"] = [{"at": at, "do": "cancel"}]
         if rng.random() < 0.4:
@@ -42,6 +42,17 @@ def make_case(seed, mode):
         plan["sbatch_fail"] = sorted({rng.randint(1, 4) for _ in range(rng.choice([1, 1, 2]))})
     elif mode == "squeuefail":
         plan["actions"] = [{"at": at, "do": "squeuefail"}]
+    elif mode == "racing_try":
+        # the user (or show-status) runs try-submit-jobs while rounds and nodes are active
+        plan["actions"] = [{"at": rng.randint(3, 150), "do": "try"} for _ in range(rng.choice([1, 2, 3]))]
+        plan["strategy"] = rng.choice(sysrun.STRATEGIES + ["gap_hunter"])
+    elif mode == "appendtimeout":
+        # the lock of a node result file times out while a node records a job's result
+        plan["actions"] = [{"when": {"k": "site", "field": "site", "startswith": "append:results_batch", "n": rng.randint(1, 3)},
+                            "do": "locktimeout", "who": "event_actor"}]
+    elif mode == "suspend":
+        # the scheduler reports a batch in a state other than pending/running (SUSPENDED) for a while
+        plan["actions"] = [{"at": at, "do": "suspend"}, {"at": at + rng.randint(10, 80), "do": "resume"}]
     elif mode == "local":
         for g in sc["groups"]:
             g["local"] = True
@@ -94,7 +105,8 @@ def run_cases(cases, procs=None):
 # final-state oracles on impl (Python)
 # ---------------------------------------------------------------------------------------------
 def fault_free(plan, r):
-    return not plan.get("actions") and not plan.get("sbatch_fail") and not plan.get("write_error") and not r["fired"]
+    acts = [a for a in plan.get("actions", []) if a["do"] not in ("try", "suspend", "resume")]
+    return not acts and not plan.get("sbatch_fail") and not plan.get("write_error") and not r["fired"]
 
 
 def acyclic(sc):
@@ -124,6 +136,7 @@ def final_oracles(sc, plan, r):
             res, missing, summary = r["final"]
             if missing:
                 probs.append(("C03", "missing-in-fault-free-run", f"missing jobs {missing}"))
+                probs.append(("C05", "completed-without-all-results", f"fault-free run was completed although jobs {missing} have no result"))
             if set(res) != set(by):
                 probs.append(("C03", "results-not-one-per-job", f"results for {sorted(res)} jobs {sorted(by)}"))
             for n, v in ref.items():
@@ -194,6 +207,20 @@ def final_oracles(sc, plan, r):
             probs.append(("C12", "node-died-holding-result-lock", f"a node died while holding {result_lock_dead}; with lock markers never broken the collection of results is wedged and the submission cannot complete"))
         else:
             probs.append(("C12", "no-completion-after-batch-failure", f"submission not complete after batch failures; excs {r['excs'][:2]}"))
+    # C11: a failed status query is transient - the submission still completes afterwards
+    acts_all = plan.get("actions", [])
+    if acts_all and all(a["do"] == "squeuefail" for a in acts_all) and not plan.get("sbatch_fail") and not plan.get("write_error") \
+            and acyclic(sc) and not complete:
+        probs.append(("C11", "squeue-failure-not-transient", f"after one failed squeue the submission never completes; excs {r['excs'][:2]}"))
+    # C14: a cancel-jobs that ran on an incomplete submission leaves it marked canceled
+    for i, ev in enumerate(tr):
+        if ev["k"] == "spawn" and ev.get("kind") == "cancel":
+            pidc = ev["p"]
+            loaded = [e for e in tr[i:] if e["p"] == pidc and e["k"] == "load" and e.get("promoted")]
+            exited = [e for e in tr[i:] if e["p"] == pidc and e["k"] == "exit"]
+            if loaded and not loaded[-1]["complete"] and exited and exited[0].get("code") == 0 \
+                    and not any(e["k"] == "mark_canceled" for e in tr[i:]):
+                probs.append(("C14", "cancel-did-not-mark", "cancel-jobs was promoted on an incomplete submission and exited normally but the submission is not marked canceled"))
     # C14: every active batch asked to be canceled; nothing submitted afterwards is in py_monitors
     for i, ev in enumerate(tr):
         if ev["k"] == "mark_canceled":
